@@ -52,7 +52,14 @@ RULE = ("objects of the 18 model classes generated from the attrs schemas: full 
         "fields (exhaustive up to 8, sampled beyond), every admissible context subset of RawExtrinsicMetadata per "
         "target type, ExtID with/without version and payload pair, SkippedContent with every subset of hashes None, "
         "non-canonical offset bytes, releases with author and no date, explicit right/wrong/absent ids, the three "
-        "legacy encodings, dictionaries with optional keys missing, constructor-rejected kwargs; non-trivial = an "
+        "legacy encodings, dictionaries with optional keys missing, constructor-rejected kwargs; nested legacy forms, "
+        "standalone and embedded in Release / Revision dictionaries (author, committer, date, committer_date): person "
+        "dictionaries without fullname over the full matrix name/email in {absent, None, b'', non-empty, with <, > or "
+        "spaces} and with fullname, date dictionaries with offset_bytes only / numeric offset(+negative_utc) only / "
+        "BOTH with canonical and non-canonical recorded bytes (b'+200', b'+0160', b'', b'-0000', 6+ bytes), int / dict / "
+        "partial timestamps, ISO strings, OriginVisit(Status) dates given as non-datetimes; each with the expectation "
+        "of the documented legacy rule computed by the harness (Person: not-None parts joined by a space; dates: "
+        "recorded offset_bytes verbatim whenever present) and id agreement with the current encoding; non-trivial = an "
         "object with >=1 optional field set and >=1 optional field None/elided, or a dictionary-level case; "
         "distinct = distinct canonical case")
 TRUSTED = ["attrs: __init__ binds kwargs by name, applies converters, runs validators in field order, then "
@@ -805,6 +812,180 @@ def legacy_cases(g, n):
     return out
 
 
+ABSENT = "<absent>"
+PERSON_PARTS = [ABSENT, None, b"", b"Jane Doe", b"J <x> D", b" a  b ", b"j@d.org", b"<", b">"]
+NONCANON_OFFSETS = [b"+200", b"+0160", b"", b"-0000", b"+1", b"+123456", b"-00000", b"+02", b"+2000000000", b"0000",
+                    b"+01:00", b"\xff"]
+
+
+def legacy_fullname(name, email):
+    """the documented legacy rule of Person.from_dict (no "fullname" key): the name if it is not None, then the
+    email in angle brackets if it is not None, joined by one space - an EMPTY name or email still counts"""
+    parts = []
+    if name is not None:
+        parts.append(name)
+    if email is not None:
+        parts.append(b"<" + email + b">")
+    return b" ".join(parts)
+
+
+RANDOM = "<random>"
+
+
+def person_form(g, fullname=RANDOM, name=RANDOM, email=RANDOM):
+    """(legacy person dict, the current dict it must decode like | None when the rule gives no object)"""
+    r = g.r
+    fullname = r.choice([ABSENT, ABSENT, b"Full Name <f@n>", b""]) if fullname == RANDOM else fullname
+    name = r.choice(PERSON_PARTS) if name == RANDOM else name
+    email = r.choice(PERSON_PARTS) if email == RANDOM else email
+    items = [(k, v) for k, v in (("fullname", fullname), ("name", name), ("email", email)) if v != ABSENT]
+    r.shuffle(items)
+    leg = SDict(items)
+    if fullname == ABSENT:
+        if name == ABSENT or email == ABSENT:
+            return leg, None                                  # d["name"] / d["email"]: KeyError
+        fn = legacy_fullname(name, email)
+    else:
+        fn = fullname
+    cur = SDict([("fullname", fn), ("name", None if name == ABSENT else name), ("email", None if email == ABSENT else email)])
+    return leg, cur
+
+
+def fmt_offset(off, neg):
+    negative = off < 0 or neg
+    return ("%s%02d%02d" % ("-" if negative else "+", abs(off) // 60, abs(off) % 60)).encode()
+
+
+def date_form(g, kind=None):
+    """(legacy date dict, the {timestamp, offset_bytes} dict it must decode like | None).  Documented rule:
+    recorded offset_bytes are kept verbatim whenever present (also next to a numeric offset); the numeric offset
+    (+ negative_utc) is only the fallback and is formatted [+-]HHMM"""
+    r = g.r
+    kind = kind or r.choice(["bytes", "num", "both", "both"])
+    sec, us = r.choice([0, 1, -5, 1_600_000_000, -62135510961]), r.choice([0, 7, 999999])
+    tsm = r.choice(["dict", "dict", "dict", "int", "partial", "empty"])
+    if tsm == "int":
+        ts, us = sec, 0
+    elif tsm == "partial":
+        ts, us = SDict([("seconds", sec)]), 0
+    elif tsm == "empty":
+        ts, sec, us = SDict([]), 0, 0
+    else:
+        ts = SDict([("seconds", sec), ("microseconds", us)])
+    items = [("timestamp", ts)]
+    m = r.choice([0, 60, 120, 330, 754, 1439, r.randrange(0, 6000)])
+    canon = fmt_offset(r.choice([m, -m]), r.random() < 0.2)
+    ob = r.choice([canon, canon, r.choice(NONCANON_OFFSETS), r.choice(NONCANON_OFFSETS)])
+    off = r.choice([0, 0, 120, -120, 96, m, -m, 32767, -32768, 40000])
+    negs = r.choice([ABSENT, ABSENT, None, False, True])
+    if kind in ("bytes", "both"):
+        items.append(("offset_bytes", ob))
+    if kind in ("num", "both"):
+        items.append(("offset", off))
+        if negs != ABSENT:
+            items.append(("negative_utc", negs))
+    r.shuffle(items)
+    leg = SDict(items)
+    tsd = SDict([("seconds", sec), ("microseconds", us)])
+    if kind in ("bytes", "both"):
+        return leg, SDict([("timestamp", tsd), ("offset_bytes", ob)])
+    neg = negs is True
+    if -32768 <= off < 32768 and not (neg and off > 0):
+        return leg, SDict([("timestamp", tsd), ("offset_bytes", fmt_offset(off, neg))])
+    return leg, None
+
+
+def nested_legacy_cases(g, quick):
+    """legacy Person / date dictionaries, standalone and embedded in Release / Revision dictionaries; dates of
+    OriginVisit / OriginVisitStatus dictionaries in the forms from_dict does NOT decode (they must be datetimes)"""
+    r = g.r
+    out = []
+
+    def case(cls, legacy, leg, cur, exp=None):
+        try:
+            c = {"cls": cls, "kind": "dict", "legacy": legacy, "w": enc(abstract(leg) if isinstance(leg, dict) else leg)}
+            if cur is not None:
+                c["w2"] = enc(abstract(cur) if isinstance(cur, dict) else cur)
+            if exp is not None:
+                c["exp"] = enc(exp)
+            out.append(c)
+        except Exception:
+            pass
+
+    # standalone persons: the full matrix without fullname, a sample with one
+    parts = PERSON_PARTS if not quick else [ABSENT, None, b"", b"Jane Doe", b"J <x> D", b" a  b "]
+    for nm in parts:
+        for em in parts:
+            leg, cur = person_form(g, ABSENT, nm, em)
+            exp = SObj("Person", cur.items) if cur is not None else None
+            case("Person", "person", leg, cur, exp)
+    for _ in range(12 if quick else 200):
+        leg, cur = person_form(g, r.choice([b"Full Name <f@n>", b"", b"x"]))
+        case("Person", "person", leg, cur, SObj("Person", cur.items))
+    # standalone dates
+    for k in range(90 if quick else 3000):
+        leg, cur = date_form(g, ["bytes", "num", "both", "both", "both"][k % 5])
+        exp = None
+        if cur is not None:
+            d = dict(cur.items)
+            exp = SObj("TimestampWithTimezone", [("timestamp", SObj("Timestamp", d["timestamp"].items)),
+                                                 ("offset_bytes", d["offset_bytes"])])
+        case("TimestampWithTimezone", "date", leg, cur, exp)
+    for v in ["2020-01-01T00:00:00+00:00", "2020-01-01", b"2020-01-01T00:00:00Z"]:
+        case("TimestampWithTimezone", "date", v, None)
+    # embedded
+    bases = {}
+    for cls in ("Release", "Revision"):
+        bases[cls] = []
+        try:
+            for spec in gen_class(g, cls, 16):
+                try:
+                    bases[cls].append(abstract(realize(fix_right_id(spec)).to_dict()).items)
+                except Exception:
+                    pass
+        except Exception:
+            pass
+    for k in range(120 if quick else 4000):
+        cls = ("Release", "Revision")[k % 2]
+        if not bases[cls]:
+            continue
+        d0 = r.choice(bases[cls])
+        leg, cur, ok = dict(d0), dict(d0), True
+        slots = [("author", "date")] if cls == "Release" else [("author", "date"), ("committer", "committer_date")]
+        for pk, dk in slots:
+            mode = r.choice(["both", "both", "person", "none"])
+            if mode == "none":
+                leg[pk] = cur[pk] = leg[dk] = cur[dk] = None
+                continue
+            pl, pc = person_form(g)
+            leg[pk], cur[pk] = pl, pc
+            ok = ok and pc is not None
+            if mode == "both":
+                dl, dc = date_form(g)
+                leg[dk], cur[dk] = dl, dc
+                ok = ok and dc is not None
+            else:
+                leg[dk] = cur[dk] = None
+        if r.random() < 0.6:
+            leg.pop("id", None), cur.pop("id", None)
+        order = [k0 for k0, _ in d0 if k0 in leg]
+        r.shuffle(order)
+        case(cls, "embedded", SDict([(k0, leg[k0]) for k0 in order]),
+             SDict([(k0, cur[k0]) for k0 in order]) if ok else None)
+    # origin visits: the date must already be a datetime
+    for cls in ("OriginVisit", "OriginVisitStatus"):
+        for dv in [g.date(), g.date(), "2020-01-01T00:00:00+00:00", 1600000000, None,
+                   SDict([("timestamp", 1), ("offset_bytes", b"+0000")])]:
+            items = [("origin", g.url()), ("date", dv), ("type", "git")]
+            if cls == "OriginVisitStatus":
+                items += [("visit", 3), ("status", "full"), ("snapshot", None)]
+            elif r.random() < 0.5:
+                items.append(("visit", r.choice([None, 7])))
+            case(cls, "visit-date", SDict(items), None)
+    return out
+
+
+
 def dict_variants(g, specs):
     """dictionary-level cases derived from generated objects: optional keys dropped, unknown keys, wrong values"""
     r = g.r
@@ -840,6 +1021,15 @@ def dict_variants(g, specs):
     return out
 
 
+def _guard(f, *a):
+    """generation uses /repo's constructors (right ids, to_dict of base objects): a library exception must not
+    escape gen() - the stream concerned is dropped and the comparison streams that remain still run"""
+    try:
+        return f(*a)
+    except Exception:
+        return []
+
+
 def gen(rng, tier):
     g = G(rng)
     quick = tier != "thorough"
@@ -849,19 +1039,26 @@ def gen(rng, tier):
     specs = []
     for _ in range(rounds):
         for cls in CLASSES:
-            specs += gen_class(g, cls, cap)
+            specs += _guard(gen_class, g, cls, cap)
     for s in specs:
-        cases.append({"cls": s.cls, "kind": "obj", "w": enc(fix_right_id(s))})
-    for s in invalid_objs(g):
+        try:
+            cases.append({"cls": s.cls, "kind": "obj", "w": enc(fix_right_id(s))})
+        except Exception:
+            pass
+    for s in _guard(invalid_objs, g):
         cases.append({"cls": s.cls, "kind": "obj", "w": enc(s)})
-    cases += legacy_cases(g, 80 if quick else 4000)
+    cases += _guard(legacy_cases, g, 80 if quick else 4000)
+    cases += _guard(nested_legacy_cases, g, quick)
     rng.shuffle(specs)
-    cases += dict_variants(g, specs[: (600 if quick else 20000)])
+    cases += _guard(dict_variants, g, specs[: (600 if quick else 20000)])
     # BaseContent.from_dict dispatches on status
     for s in specs:
         if s.cls in ("Content", "SkippedContent") and rng.random() < (0.3 if quick else 0.1):
-            d = realize(s).to_dict()
-            cases.append({"cls": "BaseContent", "kind": "dict", "legacy": None, "w": enc(abstract(d))})
+            try:
+                d = realize(s).to_dict()
+                cases.append({"cls": "BaseContent", "kind": "dict", "legacy": None, "w": enc(abstract(d))})
+            except Exception:
+                pass
     return cases
 
 
@@ -959,9 +1156,11 @@ def impl(c):
             o_cur = cls.from_dict(realize(dec(c["w2"])))
             res["cur"] = enc(abstract(o_cur))
             res["legacy_eq"] = (o is not None) and bool(o == o_cur) and res["cur"] == res["o"]
+            if o is not None and hasattr(o, "id"):
+                res["legacy_eq"] = res["legacy_eq"] and o.id == o_cur.id
         except Exception as e:
             res["cur"] = "!" + exc_class(e)
-            res["legacy_eq"] = False
+            res["legacy_eq"] = (o is None) and res["cur"] == res["o"]      # both rejected alike
     return res
 
 
@@ -1085,6 +1284,9 @@ def oracle(c, ires, mres):
         return "the dictionary of the decoded object contains a non-plain value at " + ires["non_plain"]
     if "re_eq" in ires and not ires["re_eq"]:
         return "the decoded object does not round-trip"
+    if c.get("exp") and ires.get("o") != c["exp"]:
+        return "legacy encoding (%s): from_dict gives %s, the documented legacy rule gives %s" % (
+            c.get("legacy"), ires.get("o"), c["exp"])
     if c.get("w2") and not ires.get("legacy_eq"):
         return "legacy encoding (%s) and current encoding decode to different objects: %s vs %s" % (
             c.get("legacy"), ires.get("o"), ires.get("cur"))
